@@ -226,6 +226,19 @@ def valid_repl(v, nt):
             and (nt not in LANGS or in_lang(nt, str(v))))
 
 
+def e2e_small(kind, args, o):
+    """cases cheap enough to run the Earley MODEL in Coq (end-to-end correspondence of
+    Logic/SemPredsParser.v mk_grammar / mk_parse with isla_predicates.mk_parser)"""
+    for a in args:
+        if isinstance(a, T) and len(str(a)) > 10:
+            return False
+        if isinstance(a, T) and (width_value(a) or 0) > 12:
+            return False
+        if isinstance(a, int) and not isinstance(a, bool) and abs(a) > 12:
+            return False
+    return not (o[0] == "assign" and len(str(o[2])) > 12)
+
+
 def width_value(w):
     """the integer a width argument denotes (None: not a plain non-negative numeral / int)"""
     if isinstance(w, bool):
@@ -549,6 +562,11 @@ def run(run):
     pool = tree_pool(rng, thorough)
     calls += list(gen_just(rng, pool, thorough))
     calls += list(gen_octal(rng, thorough))
+    # trees rooted in <start>: mk_parser overwrites the start rule with <start> ::= <start>, every parser request is
+    # answered SyntaxError (theorem C20_start_rooted_syntaxerr; judged by the end-to-end stage below)
+    st = T.from_parse_tree(next(iter(EarleyParser(GRAMMAR).parse("1 -10y"))))
+    calls += [("crop", (st, T("3", ())), True), ("crop", (st, T("7", ())), True), ("ljust_crop", (st, 9, "0"), True),
+              ("rjust_crop", (st, 2, " "), True), ("ljust", (st, 8, "0"), True)]
 
     t1 = time.time()
     cases, meta, hist = [], [], {}
@@ -594,6 +612,43 @@ def run(run):
         run.violation({"kind": "correspondence-not-evaluable", "obligation": "SemPreds.v cases", "error": str(e)[-2000:]},
                       found_input=False)
 
+    # ---- end-to-end correspondence: predicate model composed with the Earley MODEL of C10 through
+    # mk_parse (Logic/SemPredsParser.v) must give the implementation's outcome, replacement TREE included ----
+    e2e_idx = [i for i, m in enumerate(meta) if e2e_small(*m)]
+    parse_idx = [i for i in e2e_idx if meta[i][2][0] == "assign" and isinstance(meta[i][2][2], T)
+                 and meta[i][2][2].children is not None]
+    syn_idx = [i for i in e2e_idx if meta[i][2] == ("raise", "SyntaxErr")]
+    other_idx = [i for i in e2e_idx if i not in set(parse_idx) and i not in set(syn_idx)]
+    rng2 = random.Random(run.seed + 20)
+    cap = (1500, 600, 300) if thorough else (400, 200, 100)
+    pick = sorted(rng2.sample(parse_idx, min(cap[0], len(parse_idx))) + rng2.sample(syn_idx, min(cap[1], len(syn_idx)))
+                  + rng2.sample(other_idx, min(cap[2], len(other_idx))))
+    forced = [i for i in e2e_idx if meta[i][0] != "count" and isinstance(meta[i][1][0], T) and meta[i][1][0].value == "<start>"]
+    pick = sorted(set(pick) | set(forced))
+    run.cov["e2e_start_rooted"] = {"cases": len(forced),
+                                   "syntax_error": sum(1 for i in forced if meta[i][2] == ("raise", "SyntaxErr"))}
+    run.cov["e2e_cases"] = {"parsed_replacement": min(cap[0], len(parse_idx)), "syntax_error": min(cap[1], len(syn_idx)),
+                            "other": min(cap[2], len(other_idx))}
+    ok_e2e = ("fun c : call * iout => agrees_full (sem_eval_earley false false FUEL G FX (fst c)) (snd c) "
+              "&& agrees_full (sem_eval_earley true true FUEL G FX (fst c)) (snd c)")
+    defs_e2e = defs + "Definition FUEL := fuel_bound (sct G) 14 + 40.\n" if pick else ""
+    try:
+        if pick:
+            bad2, dt2 = lib.coq_mismatches("c20e", "SemPreds SemPredsParser Earley EarleyFuel", ok_e2e,
+                                           [cases[i] for i in pick], shard=150, extra_defs=defs_e2e)
+            run.cov["coq_seconds_e2e"] = round(dt2, 1)
+            for j in bad2:
+                kind, args, o = meta[pick[j]]
+                model = lib.coq_eval(f"c20e{j}", "SemPreds SemPredsParser Earley EarleyFuel",
+                                     f"sem_eval_earley false false FUEL G FX {g_call(kind, args)}", extra_defs=defs_e2e) \
+                    if len(disagreements) < 3 else ""
+                disagreements.append({"pred": kind, "args": [j_arg(a) for a in args], "impl": j_out(o),
+                                      "model": model[-600:], "spec": spec_verdict(kind, args, o), "stage": "end-to-end",
+                                      "_raw": (kind, args, o)})
+    except RuntimeError as e:
+        run.violation({"kind": "correspondence-not-evaluable", "obligation": "SemPredsParser.v mk_parse cases",
+                       "error": str(e)[-2000:]}, found_input=False)
+
     # ---- the property itself on every observed outcome (spec-side oracle, independent of the model) ----
     prop_fail = []
     for kind, args, o in meta:
@@ -630,14 +685,16 @@ def run(run):
     elif disagreements:
         run.violation({"kind": "correspondence broken but the property holds on the differing inputs",
                        "first": disagreements[0], "n": len(disagreements),
-                       "obligation": "correspondence SemPreds.v pre_eval <-> isla_predicates.py (count/crop/just/octal_to_dec)"},
+                       "obligation": "correspondence SemPreds.v pre_eval / SemPredsParser.v mk_parse <-> isla_predicates.py (count/crop/just/octal_to_dec, mk_parser)"},
                       found_input=False)
     if not proof_ok:
         run.violation({"kind": "proof obligation failed", "problems": run.proof_problems,
                        "obligation": "Props/C20.v"}, found_input=False)
     run.cov["trusted_base"] = lib.TRUSTED_BASE_COMMON + [
-        "the Earley parser is not modelled: theorems take it as a function with the soundness premise of C10; "
-        "each observed replacement tree is checked by the verified wf_treeb + closedb + yield equality",
+        "parser: the *_earley theorems use the Earley MODEL of C10 (Grammar/Earley.v, tied to isla/parser.py by C10's "
+        "check) through mk_parse (SemPredsParser.v, tied to isla_predicates.mk_parser by the end-to-end stage of this "
+        "run: same outcome and same replacement tree on the small cases); every other observed replacement tree is "
+        "checked by the verified wf_treeb + closedb + yield equality",
         "independent description of the nonterminal languages of the harness grammar (LANGS), cross-checked against "
         "EarleyParser each run, judges SyntaxError outcomes",
         "string model restricted to code points < 256 (int() on other Unicode digits/whitespace not modelled)",
